@@ -193,5 +193,9 @@ func frontFamily(c map[string]json.RawMessage) (interface{}, error) {
 		_ = json.Unmarshal(b, &flat)
 	}
 	_ = os.Chdir(cwd)
-	return map[string]interface{}{"containers": containers, "flat": dsJ(flat)}, nil
+	res := map[string]interface{}{"containers": containers, "flat": dsJ(flat)}
+	if boolean(c, "unmodelled") {
+		res["unmodelled"] = true // shapes outside the Lean model (judged by the statement-level oracle only)
+	}
+	return res, nil
 }
